@@ -269,6 +269,64 @@ Theorem slice_slice_assoc : forall dv r1 r2 idx s2,
 Proof. exact SliceRangeProofs.slice_slice_assoc. Qed.
 Print Assumptions slice_slice_assoc.
 
+(* ---- layout of range vectors -------------------------------------------------------------------- *)
+(* a range value is the vector [from0; to0; from1; to1; ...]; the handlers read slot d*2 and
+   d*2+1 for dimension d < dims.  flatten / unflatten round-trip, the indexing denotes
+   (from_d, to_d), and the handlers restated on vectors (the functions the check runs against the
+   VM) are the handlers on lists of pairs, to which the theorems above apply *)
+Theorem unflatten_flatten : forall r, unflatten (flatten r) = r.
+Proof. exact SliceRangeProofs.unflatten_flatten. Qed.
+Print Assumptions unflatten_flatten.
+
+Theorem flatten_unflatten : forall n v, length v = (2 * n)%nat -> flatten (unflatten v) = v.
+Proof. exact SliceRangeProofs.flatten_unflatten. Qed.
+Print Assumptions flatten_unflatten.
+
+Theorem vec_layout : forall r d,
+  vec_get (flatten r) (d * 2) = fst (nth d r (0, 0)) /\
+  vec_get (flatten r) (d * 2 + 1) = snd (nth d r (0, 0)).
+Proof. exact SliceRangeProofs.vec_layout. Qed.
+Print Assumptions vec_layout.
+
+Theorem vec_dims_flatten : forall r, vec_dims (length r) (flatten r) = r.
+Proof. exact SliceRangeProofs.vec_dims_flatten. Qed.
+Print Assumptions vec_dims_flatten.
+
+Theorem slice_range_vec_spec : forall r1 r2, length r2 = length r1 ->
+  slice_range_vec (length r1) (Some (flatten r1)) (Some (flatten r2)) =
+  lift_flatten (slice_range (Some r1) (Some r2)).
+Proof. exact SliceRangeProofs.slice_range_vec_spec. Qed.
+Print Assumptions slice_range_vec_spec.
+
+Theorem range_deref_vec_spec : forall r idx,
+  range_deref_vec (length r) (Some (flatten r)) idx = range_deref (Some r) idx.
+Proof. exact SliceRangeProofs.range_deref_vec_spec. Qed.
+Print Assumptions range_deref_vec_spec.
+
+Theorem slice_deref_vec_spec : forall arr r idx,
+  slice_deref_vec (length r) (Some {| slv_arr := arr; slv_range := Some (flatten r) |}) idx =
+  slice_deref (Some {| sl_arr := arr; sl_range := Some r |}) idx.
+Proof. exact SliceRangeProofs.slice_deref_vec_spec. Qed.
+Print Assumptions slice_deref_vec_spec.
+
+Theorem slice_slice_vec_spec : forall arr r1 r2, length r2 = length r1 ->
+  slice_slice_vec (length r1) (Some {| slv_arr := arr; slv_range := Some (flatten r1) |}) (Some (flatten r2)) =
+  match slice_slice (Some {| sl_arr := arr; sl_range := Some r1 |}) (Some r2) with
+  | Ok s => Ok {| slv_arr := sl_arr s;
+                  slv_range := match sl_range s with Some r => Some (flatten r) | None => None end |}
+  | Exc e => Exc e
+  end.
+Proof. exact SliceRangeProofs.slice_slice_vec_spec. Qed.
+Print Assumptions slice_slice_vec_spec.
+
+Example vec_layout_example :
+  flatten [(5, 1); (10, 13); (7, 2)] = [5; 1; 10; 13; 7; 2] /\
+  unflatten [5; 1; 10; 13; 7; 2] = [(5, 1); (10, 13); (7, 2)] /\
+  vec_dims 3 [5; 1; 10; 13; 7; 2] = [(5, 1); (10, 13); (7, 2)] /\
+  slice_range_vec 2 (Some [5; 1; 10; 13]) (Some [1; 3; 2; 0]) = Ok [4; 2; 12; 10] /\
+  range_deref_vec 2 (Some [4; 2; 12; 10]) [2; 1] = Ok [2; 11].
+Proof. exact SliceRangeProofs.vec_layout_example. Qed.
+
 (* ---- strings ----------------------------------------------------------------------------------- *)
 
 (* a character is produced <-> 0 <= index < length *)
